@@ -161,7 +161,28 @@ def extra_checks(rng, tier, notes):
             if not np.array_equal(np.asarray(last.values).ravel(), np.asarray(integ.values).ravel()):
                 out.append((case, {"last": np.asarray(last.values).tolist(), "integrate": np.asarray(integ.values).tolist()},
                             f"last value of cumint to {to['X']} differs from integrate: {case}"))
+        # several axes, in both orders, under whatever fill value is in force: the integral is the
+        # running sum of data times the cell metric taken over the SAME axes in the SAME order
+        for order in (["X", "Y"], ["Y", "X"]):
+            ci2 = g.cumint(da, order, to=to)
+            cs2 = g.cumsum(da * ds.dx * ds.dy, order, to=to).transpose(*ci2.dims)
+            if not np.array_equal(ci2.values, cs2.values):
+                out.append(({**case, "axes": order}, {"cumint": ci2.values.tolist(), "cumsum": cs2.values.tolist()},
+                            f"cumint over {order} differs from cumsum(da*metric) over {order}: {case}"))
+        # per-call mappings re-used on another grid: the second grid's own defaults apply to the
+        # axes the mapping does not name
+        g_other = Grid(ds, coords=coords, periodic=False, boundary={"X": "fill", "Y": "extend"},
+                       fill_value={"X": 7, "Y": -2}, autoparse_metadata=False)
+        fv_partial, b_partial = {"Y": 1.0}, {"Y": "fill"}
+        g.cumsum(da, ["X", "Y"], to=to, fill_value=fv_partial, boundary=b_partial)
+        reused = g_other.cumsum(da, "X", to="outer", fill_value=fv_partial, boundary=b_partial)
+        fresh = g_other.cumsum(da, "X", to="outer", fill_value={"Y": 1.0}, boundary={"Y": "fill"})
+        if not np.array_equal(reused.values, fresh.values):
+            out.append(({**case, "reuse": True}, {"reused": reused.values.tolist(), "fresh": fresh.values.tolist()},
+                        "cumsum with per-call mappings already used on another grid differs from the same call "
+                        f"with fresh mappings (leading value should be that grid's fill 7): {case}"))
         done += 1
     notes.append(f"implementation-level relations checked on {done} random 2-axis grids "
-                 "(commutation unless fill!=0, cumint==cumsum(da*metric), last(cumint)==integrate)")
+                 "(commutation unless fill!=0, cumint==cumsum(da*metric) on one and on two axes in both orders, "
+                 "last(cumint)==integrate, per-call mappings re-used across grids)")
     return out
